@@ -4,7 +4,8 @@ From RV Require Model.RolloutSM Model.Loop.
 
 Record br_obs := { bo_panic : bool; bo_err : bool; bo_gone : bool; bo_status : br_status; bo_workload : cloneset;
                    bo_finalizer : bool; bo_requeue : bool;
-                   bo_view : option (bool * bool * Z * bool)   (* the Rollout harness's reading of the same object: consistent, Ready, batch, completed *) }.
+                   bo_view : option (bool * bool * Z * bool);  (* the Rollout harness's reading of the same object: consistent, Ready, batch, completed *)
+                   bo_in_unknown_kind : bool   (* INPUT flag carried with the observation: workloadRef names an unsupported kind *) }.
 Definition case := (br_spec * br_status * cloneset * br_obs)%type.
 
 Definition ctl_eqb (a b : ctl) : bool := match a, b with CtlNone, CtlNone | CtlMine, CtlMine | CtlOther, CtlOther => true | _, _ => false end.
@@ -21,9 +22,20 @@ Definition view_agrees (sp : br_spec) (o : br_obs) : bool :=
     (RolloutSM.br_batch v =? batch) && Bool.eqb (RolloutSM.br_completed v) completed
   end.
 
+(* a workloadRef of an unsupported kind: after the finalizer handling nothing is executed; since the fix of F34 the reconcile
+   records the (initialised) status instead of dereferencing a status that was never built *)
+Definition reconcile_unknown_kind (sp : br_spec) (st : br_status) (w : cloneset) : option br_result :=
+  if sp_deleting sp && brphase_eqb (bs_phase st) PhCompleted && sp_finalizer sp then
+    Some {| r_status := st; r_workload := w; r_finalizer := false; r_requeue := RqNone; r_err := false; r_upgraded := None |}
+  else
+    let s0 := match bs_phase st with PhInitial => reset_status st | _ => st end in
+    Some {| r_status := set_gen_cond s0 (sp_generation sp) (bs_cond s0); r_workload := w; r_finalizer := true; r_requeue := RqNone; r_err := false; r_upgraded := None |}.
+Definition model (c : case) : option br_result :=
+  let '(sp, st, w, o) := c in if bo_in_unknown_kind o then reconcile_unknown_kind sp st w else reconcile sp st w.
+
 Definition corresponds (c : case) : bool :=
   let '(sp, st, w, o) := c in
-  match reconcile sp st w with
+  match model c with
   | None => bo_panic o
   | Some r =>
     negb (bo_panic o) &&
@@ -117,6 +129,9 @@ Definition judge (c : case) : list verdict :=
   let '(sp, st, w, o) := c in
   (if corresponds c then VOk else VMismatch) ::
   clause "C09_batchrelease_no_panic" (negb (bo_panic o)) ::
+  (* a workloadRef of an unsupported kind is judged for C09 only: nothing can be executed for it, and the clauses below speak
+     about releases of a supported workload (a deleting BatchRelease of an unsupported kind keeps its finalizer: observed, not judged) *)
+  if bo_in_unknown_kind o then [] else
   (* the finalizer is given up (the object may be gone with it) only by a deleting BatchRelease that had recorded Completed *)
   (if bo_panic o then [] else
    [ clause "C18_batchrelease_finalizer_guard"
